@@ -695,8 +695,9 @@ class Scalar(Qube):
         obj = Scalar(exp_values, mask=no_oflow._mask_)
 
         if recursive and self._derivs_:
+            factor = Scalar(exp_values, mask=no_oflow._mask_)
             for (key, deriv) in self._derivs_.items():
-                obj.insert_deriv(key, deriv * exp_values)
+                obj.insert_deriv(key, factor * deriv)
 
         return obj
 
